@@ -1,5 +1,6 @@
 import Jwt.Jwk
 import Jwt.Lemmas.Json
+import Jwt.Lemmas.PipelineJwk
 /-!
 # C07 — arbitrary JWK/JWKS input: a well-formed keyring comes back
 
@@ -121,5 +122,23 @@ example : (processOne noOracle (.obj [([107, 116, 121], .str [79, 75, 80]), ([99
 -- {"kty":"oct","k":"AQID"}: a usable key
 example : (processOne noOracle (.obj [([107, 116, 121], .str [111, 99, 116]), ([107], .str [65, 81, 73, 68])])) =
     { kty := 4, isPrivate := true, oct := [1, 2, 3], bits := 24 } := by decide +kernel
+
+/-- **The import dispatch is the source's.** Which importer a JWK goes through is decided by the if-chain of
+`jwk_process_one` as *generated* from `jwks.c`; fed with `jwt_strcmp` against the names of the generated kty table it
+selects what the model's table lookup selects, and a missing, non-string or unknown `kty` gives a flagged item with a
+message (never NULL, never an unflagged item without a key). -/
+theorem C07_dispatch_is_source (kty : Bytes) :
+    (Jwt.Generated.Pipeline.processOne false false false true (ktyIs kty [69, 67]) (ktyIs kty [82, 83, 65]) (ktyIs kty [79, 75, 80]) (ktyIs kty [111, 99, 116])).1
+      = (lookup Jwt.Generated.ktyTable kty).getD 0 ∧
+    (∀ a b c d s, Jwt.Generated.Pipeline.processOne false false true s a b c d = (0, true)) ∧
+    (∀ a b c d, Jwt.Generated.Pipeline.processOne false false false false a b c d = (0, true)) :=
+  ⟨processOne_dispatch kty, fun a b c d s => (processOne_refusals a b c d s).1, fun a b c d => (processOne_refusals a b c d false).2.1⟩
+
+/-- `process_octet` as generated: an oct item is flagged (with a message) exactly when `k` is missing, not a string,
+empty or refused by the decoder -/
+theorem C07_oct_is_source (jwk : Json) (it : Item) (hit : it.error = false) (x1 x2 : Bool) :
+    ((processOctet jwk it).error = true ↔ (processOctetGen jwk x1 x2).1 = 1) ∧
+    ((processOctetGen jwk x1 x2).2 = true ↔ (processOctetGen jwk x1 x2).1 = 1) :=
+  ⟨(processOctet_generated jwk it hit x1 x2).1, (processOctet_generated jwk it hit x1 x2).2.2⟩
 
 end Jwt.Props.C07
